@@ -408,7 +408,32 @@ fn verify<const N: usize>(b: &Bitset<N>, model: &[bool], salt: usize, rep: &mut 
         ("differing == b", lib!(other == *b), false),
         ("b != differing", lib!(*b != other), true),
     ];
-    rep.count("eq_comparisons", obs.len() as u64);
+    // the same comparisons between copies at neighbouring places of one array and behind a Box (equal sets whose storage
+    // starts at different offsets modulo 16 / 32 / 64 bytes: a comparison that works on aligned blocks splits them differently)
+    let placed: [Bitset<N>; 3] = [same.clone(), same.clone(), same.clone()];
+    let boxed: Box<(u64, Bitset<N>)> = Box::new((7, same.clone()));
+    let boxed2: Box<Bitset<N>> = Box::new(same.clone());
+    let mut placed_wrong: Vec<String> = Vec::new();
+    for (name, v) in [
+        ("array[0] == array[1]", lib!(placed[0] == placed[1])),
+        ("array[1] == array[2]", lib!(placed[1] == placed[2])),
+        ("array[2] == array[0]", lib!(placed[2] == placed[0])),
+        ("b == array[1]", lib!(*b == placed[1])),
+        ("array[0] == boxed field behind a u64", lib!(placed[0] == boxed.1)),
+        ("array[1] == boxed field behind a u64", lib!(placed[1] == boxed.1)),
+        ("boxed == array[1]", lib!(*boxed2 == placed[1])),
+        ("boxed == boxed field behind a u64", lib!(*boxed2 == boxed.1)),
+        ("!(array[0] != array[1])", !lib!(placed[0] != placed[1])),
+        ("!(array[1] == differing)", !lib!(placed[1] == other)),
+    ] {
+        if !v {
+            placed_wrong.push(format!("({}) is false", name));
+        }
+    }
+    rep.count("eq_comparisons", obs.len() as u64 + 10);
+    if !placed_wrong.is_empty() {
+        fails.push(Fail { check: "eq", got: placed_wrong.join(", "), want: "equal sets compare equal wherever their storage lies".into() });
+    }
     let wrong: Vec<String> = obs.iter().filter(|o| o.1 != o.2).map(|o| format!("({}) = {}", o.0, o.1)).collect();
     if !wrong.is_empty() {
         fails.push(Fail {
